@@ -167,6 +167,11 @@ structure DrvSt where
   tq : TQ.St := TQ.init
   ep : EP.St := EP.init
   epc : EPC.St := EPC.init
+  /-- kernel stream: per core its tracker and the tuples in its conn-state map; `shared` = both
+  generations use one bpf object (one tracker, one map) -/
+  krnShared : Bool := false
+  krnT : List Tracker.St := [Tracker.init, Tracker.init]
+  krnK : List (List Nat) := [[], []]
   /-- split `InvalidateDialerNetworkType`: the bucket snapshot and the number of retires so far -/
   epSnap : List Nat := []
   epInvalN : Nat := 0
@@ -232,6 +237,51 @@ def handleTrk (st : DrvSt) (toks : List String) : DrvSt × String :=
       let sp := ks.foldl (fun s k => (Tracker.step s (.forget k)).1) (getT p)
       let st1 := { st with trk := (st.trk.set c sc).set p sp }
       (st1, s!"cur {TrkDrv.digest sc} prev {TrkDrv.digest sp}")
+    | _, _, _ => (st, "bad-op")
+  | _ => (st, "bad-op")
+
+def handleKrn (st : DrvSt) (toks : List String) : DrvSt × String :=
+  let ix (c : Nat) := if st.krnShared then 0 else c
+  let getT (c : Nat) := st.krnT.getD (ix c) Tracker.init
+  let getK (c : Nat) := st.krnK.getD (ix c) []
+  let put (st : DrvSt) (c : Nat) (t : Tracker.St) (k : List Nat) : DrvSt :=
+    { st with krnT := st.krnT.set (ix c) t, krnK := st.krnK.set (ix c) k }
+  let sorted (l : List Nat) := (l.toArray.qsort (· < ·)).toList
+  let show_ (st : DrvSt) :=
+    let i1 := if st.krnShared then 0 else 1
+    s!"t0[{TrkDrv.digest (st.krnT.getD 0 Tracker.init)}] k0={joinNat (sorted (st.krnK.getD 0 []))} " ++
+    s!"t1[{TrkDrv.digest (st.krnT.getD i1 Tracker.init)}] k1={joinNat (sorted (st.krnK.getD i1 []))}"
+  match toks with
+  | ["reset", mode] =>
+    let st1 := { st with krnShared := mode == "shared", krnT := [Tracker.init, Tracker.init], krnK := [[], []] }
+    (st1, "ok")
+  | ["flow", c, k] =>
+    match c.toNat?, k.toNat? with
+    | some c, some k =>
+      let kk := if (getK c).contains k then getK c else k :: getK c
+      let st1 := put st c (Tracker.step (getT c) (.retain k)).1 kk
+      (st1, show_ st1)
+    | _, _ => (st, "bad-op")
+  | ["retain", c, k] =>
+    match c.toNat?, k.toNat? with
+    | some c, some k => let st1 := put st c (Tracker.step (getT c) (.retain k)).1 (getK c); (st1, show_ st1)
+    | _, _ => (st, "bad-op")
+  | ["release", c, ks] =>
+    match c.toNat?, natList? ks with
+    | some c, some ks =>
+      let r := Tracker.releaseKernel (getT c) (getK c) ks
+      let st1 := put st c r.1 r.2
+      (st1, show_ st1)
+    | _, _ => (st, "bad-op")
+  | ["transfer", cur, prev, ks] =>
+    match cur.toNat?, prev.toNat?, natList? ks with
+    | some c, some p, some ks =>
+      if st.krnShared || c == p then (st, show_ st)      -- same tracker: nothing to hand over
+      else
+        let sc := ks.foldl (fun s k => (Tracker.step s (.retain k)).1) (getT c)
+        let sp := ks.foldl (fun s k => (Tracker.step s (.forget k)).1) (getT p)
+        let st1 := put (put st c sc (getK c)) p sp (getK p)
+        (st1, show_ st1)
     | _, _, _ => (st, "bad-op")
   | _ => (st, "bad-op")
 
@@ -333,6 +383,8 @@ def handleEp (st : DrvSt) (toks : List String) : DrvSt × String :=
   | ["reset"] => upd EP.init "ok"
   | ["st"] => (st, EpDrv.digest s)
   | ["stx"] => (st, EpDrv.digestNoTime s)
+  -- kernel conn-state entries of tuples no endpoint owns any more (after everything is closed): none
+  | ["kleft"] => (st, "0")
   | ["goc", k, sym, nat, owner, drain, d, out] =>
     match k.toNat?, boolTok? sym, nat.toNat?, EpDrv.optTok? owner, EpDrv.optTok? drain, d.toNat?,
       (match out with | "ok" => some EP.DialOutcome.ok | "gen" => some .failGeneric | "noalive" => some .failNoAlive | _ => none) with
@@ -452,6 +504,7 @@ def handle (st : DrvSt) (line : String) : DrvSt × String :=
   match words line with
   | "trk" :: rest => handleTrk st rest
   | "drn" :: rest => handleDrn st rest
+  | "krn" :: rest => handleKrn st rest
   | "key" :: rest => (st, handleKey rest)
   | "tq" :: rest => handleTq st rest
   | "ep" :: rest => handleEp st rest
